@@ -143,16 +143,15 @@ def pending (cls : Nat → Cls) (ids vis : List Nat) : Nat :=
   | [] => 0
   | i :: r => (if i ∈ vis then 0 else kidsLen cls i) + pending cls r vis
 
-def dedup : List Nat → List Nat
-  | [] => []
-  | a :: r => if a ∈ r then dedup r else a :: dedup r
-
 def fuelBound (cls : Nat → Cls) (ids rootKids : List Nat) : Nat :=
-  rootKids.length + pending cls (dedup ids) [] + 1
+  rootKids.length + pending cls ids []
 
 def flatten (g : Graph) (root : Dict) : Option (List Nat) :=
   let rk := resolveKids g root.kids
   loop (classify g) (fuelBound (classify g) g.ids rk) rk [] []
+
+/-- `PdfDocument::page_count` = `page_refs.len()` of the flat index (`new_with_flat_index`) -/
+def docPageCount (g : Graph) (root : Dict) : Option Nat := (flatten g root).map List.length
 
 /-! ### inherited attributes (`collect_inherited_attributes`) -/
 
